@@ -31,7 +31,7 @@ EXPLANATION = ("contracts: part proved, part bounded. Proved: the traced algorit
                "order of the input up to column order. Bounded: equality of singular values / components at each label / scores under "
                "transposition, feature permutation, Dataset / list splitting, custom names and sample permutation on real models")
 
-REPO = "/repo"
+REPO = os.path.dirname(os.path.dirname(os.path.abspath(xeofs.__file__)))     # the tree xeofs is imported from (/repo)
 SCAN = ["xeofs/single/eof.py", "xeofs/single/eeof.py", "xeofs/single/opa.py", "xeofs/single/pop.py", "xeofs/single/sparse_pca.py",
         "xeofs/single/eof_rotator.py", "xeofs/single/base_model_single_set.py", "xeofs/cross/base_model_cross_set.py", "xeofs/cross/cpcca.py",
         "xeofs/cross/cpcca_rotator.py", "xeofs/cross/mca.py", "xeofs/cross/cca.py", "xeofs/cross/rda.py", "xeofs/validation/bootstrapper.py",
